@@ -656,6 +656,11 @@ def check(run, replay=None):
     if replay:
         run.build()
         c = json.load(open(replay))
+        if 'occupancy' in c and 'cmd' not in c:      # a slider-lookup counterexample of lemma L1 (same replay as C06)
+            from . import c06
+            got = c06.native_slider(run, c['piece'], c['square'], c['occupancy'])
+            print('replay %s sq=%d occ=%#x: native=%s reference=%s' % (c['piece'], c['square'], c['occupancy'], got, c['expected']))
+            return 1 if got != c['expected'] else 0
         extra = []
         if c['cmd'] == 'moveset':
             extra = [str(c['kind']), str(c['color']), str(c['square'] >> 3), str(c['square'] & 7)]
@@ -679,6 +684,10 @@ def check(run, replay=None):
                     'Kind::get_moveset for a king of the side that is NOT to move (castling_ability returns Err and expect() panics): never called by get_all_moves (L5)']
     reference_selftest(run)
     lemma_L0(run)
+    # L1: the slider lookups that L2-L6 summarise by the ray-walk reference are exact (same obligations as C06, discharged here
+    # so that this check does not silently rely on another one)
+    from . import c06
+    c06.sliders(run, z3.BitVec('occ', 64), prefix='L1/')
     jobs = [('L2', (t, c)) for t in (0, 1) for c in (0, 1)]
     jobs += [('L3', (t, k)) for t in (0, 1) for k in range(4)]
     jobs += [('L5', t) for t in (0, 1)]
